@@ -50,6 +50,7 @@ pub enum Op {
     Reopen { opts: OptSet },
     Quiesce,
     ReadMiss { n: usize },
+    Descr,
 }
 
 #[derive(Clone, Debug, Serialize, Deserialize)]
@@ -70,6 +71,8 @@ pub struct HistCfg {
     pub bias_compact: bool,
     #[serde(default)]
     pub bias_reopen: bool,
+    #[serde(default)]
+    pub descriptors: bool,
 }
 
 #[derive(Clone, Debug, Serialize, Deserialize)]
@@ -418,6 +421,35 @@ impl Session {
             Op::Quiesce => {
                 self.quiesce();
             }
+            Op::Descr => {
+                // every descriptor kind, including an invalid level
+                let db = self.db.as_ref().unwrap();
+                self.emit("DescrCall", json!({}));
+                let mut ok = 0;
+                self.wd.call("get_descriptor", || {
+                    for level in 0..8 {
+                        if db
+                            .get_descriptor(raindb::db::DatabaseDescriptor::NumFilesAtLevel(level))
+                            .is_ok()
+                        {
+                            ok += 1;
+                        }
+                    }
+                    if db
+                        .get_descriptor(raindb::db::DatabaseDescriptor::SSTables)
+                        .is_ok()
+                    {
+                        ok += 1;
+                    }
+                    if db
+                        .get_descriptor(raindb::db::DatabaseDescriptor::Stats)
+                        .is_ok()
+                    {
+                        ok += 1;
+                    }
+                });
+                self.emit("DescrRet", json!({"ok": ok}));
+            }
             Op::ReadMiss { n } => {
                 // repeated reads (also of absent keys) provoke seek-triggered compactions
                 let db = self.db.as_ref().unwrap();
@@ -605,6 +637,8 @@ fn gen_op(rng: &mut StdRng, g: &mut GenState, cfg: &HistCfg, cur: &OptSet) -> Op
         Op::ReadMiss {
             n: rng.gen_range(50..300),
         }
+    } else if r < 98 && cfg.descriptors {
+        Op::Descr
     } else {
         Op::Quiesce
     }
